@@ -200,12 +200,17 @@ Theorem c06_through_start_needed :
   (* start 6, 7: the hypothesis fails ... *)
   ~ In (c06_mk 5) (file_delivery c06_chain 6 8 100) /\ ~ In (c06_mk 5) (file_delivery c06_chain 7 8 100) /\
   (* ... and so does the conclusion: nothing delivered, "not implemented" *)
-  through_cursor_run c06_chain [] 6 c06_cur 8 100 = ([], RsNotImplemented) /\
-  through_cursor_run c06_chain [] 7 c06_cur 8 100 = ([], RsNotImplemented) /\
+  through_resolver_run c06_chain [] 6 c06_cur 8 100 = ([], RsNotImplemented) /\
+  through_resolver_run c06_chain [] 7 c06_cur 8 100 = ([], RsNotImplemented) /\
   map (file_event SNewIrr) (file_delivery c06_chain 7 8 100) <> [] /\
   (* final target cursor on 13@3, start 5 *)
   In (c06_mk 3) c06_chain /\ bref (c06_mk 3) = cu_blk c06_cur_final /\ rn (cu_blk c06_cur_final) <= rn (cu_lib c06_cur_final) /\
-  through_cursor_run c06_chain [] 5 c06_cur_final 8 100 = ([], RsNotImplemented).
+  through_resolver_run c06_chain [] 5 c06_cur_final 8 100 = ([], RsNotImplemented) /\
+  (* since the fix C06-through-cursor-passed (the cursor "has already passed" and is ignored, as the
+     hub does) all three are served as a plain file source: *)
+  c06_show (through_cursor_run c06_chain [] 6 c06_cur 8 100) = ([(SNewIrr, 16); (SNewIrr, 17); (SNewIrr, 18)], RsOk) /\
+  c06_show (through_cursor_run c06_chain [] 7 c06_cur 8 100) = ([(SNewIrr, 17); (SNewIrr, 18)], RsOk) /\
+  c06_show (through_cursor_run c06_chain [] 5 c06_cur_final 8 100) = ([(SNewIrr, 15); (SNewIrr, 16); (SNewIrr, 17); (SNewIrr, 18)], RsOk).
 Proof.
   split.
   { split; [vm_compute; repeat split; reflexivity|].
@@ -217,7 +222,7 @@ Proof.
   split; [vm_compute; reflexivity|]. split; [vm_compute; reflexivity|].
   split; [vm_compute; discriminate|].
   split; [vm_compute; tauto|]. split; [reflexivity|]. split; [vm_compute; discriminate|].
-  vm_compute. reflexivity.
+  split; [vm_compute; reflexivity|]. split; [vm_compute; reflexivity|]. split; vm_compute; reflexivity.
 Qed.
 Print Assumptions c06_through_start_needed.
 
